@@ -39,6 +39,7 @@ def build_world(shape):
     W['nrule'] = ['Formyl']
     W['vrules'] = {'K': [['Methyl'], ['Dimethyl']], 'P': 'Oxidation'}
     W['comp'] = {'C': 6, 'H': 12, 'O': 6, 'e': -1, 'N': 0}
+    W['comp0'] = {'C': 6.5, 'H': 12, 'O': 6, 'S': 0, '13C': 0}    # zero counts, no particle keys
     W['gly'] = {'Hex': 2, 'HexNAc': 1}
     W['losses'] = [('K', -10.0)]
     W['labels'] = ['15N']
@@ -168,6 +169,11 @@ def L(p):
     # ---- isotope
     t['isotopic_distribution'] = lambda W: p.isotopic_distribution(W['comp'], 5)
     t['isotopic_distribution-neutron'] = lambda W: p.isotopic_distribution(W['comp'], 5, use_neutron_count=True)
+    t['isotopic_distribution-zeros'] = lambda W: p.isotopic_distribution(W['comp0'], 5)
+    t['isotopic_distribution-zeros-neutron'] = lambda W: p.isotopic_distribution(W['comp0'], 5, use_neutron_count=True)
+    t['chem_mass-zeros'] = lambda W: p.chem_mass(W['comp0'])
+    t['write_chem_formula-zeros'] = lambda W: p.write_chem_formula(W['comp0'])
+    t['apply_isotope_mods_to_composition-zeros'] = lambda W: p.apply_isotope_mods_to_composition(W['comp0'], W['labels2'])
     t['merge_isotopic_distributions'] = lambda W: p.merge_isotopic_distributions(W['dist1'], W['dist2'])
     t['apply_isotope_mods_to_composition'] = lambda W: p.apply_isotope_mods_to_composition(W['comp'], W['labels'])
     t['apply_isotope_mods_to_composition-mods'] = lambda W: p.apply_isotope_mods_to_composition(W['comp'], W['labels2'])
@@ -233,7 +239,7 @@ def labels():
 
 # labels known (by reading) to touch caller-owned objects or global state: first/second element of thorough triples
 TOUCHY = ['shared-Fragmenter-ml2', 'fragment-avg', 'apply_isotope_mods_to_composition-str', 'mod_comp-str', 'split', 'A.split', 'permutations', 'A.permutations', 'product', 'combinations', 'combinations_with_replacement',
-          'fragment', 'fragment-losses', 'Fragmenter', 'condense_to_mass_mods', 'isotopic_distribution',
+          'fragment', 'fragment-losses', 'Fragmenter', 'condense_to_mass_mods', 'isotopic_distribution', 'isotopic_distribution-zeros',
           'get_fragment_matches', 'shuffle-seed', 'A.shuffle-seed', 'fix_list_of_mods', 'create_annotation',
           'create_annotation-raw', 'comp_mass', 'count_residues', 'apply_static_mods', 'apply_variable_mods',
           'apply_isotope_mods_to_composition', 'digest-annotation']
